@@ -36,6 +36,8 @@ func runC13(p *Program, r *Report) {
 	ruleR132(p, r, a)
 	ruleR133(p, r, a)
 	ruleR134(p, r)
+	r.Rule("R13.5", "E4", 20, "an optional clause is printed whenever it is present: in every Format method, a test 'node.F != nil' (or a non-empty test of F) that guards the printing of child F stands alone - it is not and-ed with another condition, so no other state of the node can make a present clause disappear from the re-serialised statement")
+	ruleR135(p, r, a)
 }
 
 func ruleR131(p *Program, r *Report, a *sqlAST) {
@@ -400,4 +402,136 @@ func ruleR134(p *Program, r *Report) {
 	if n == 0 {
 		r.Bad("R13.4", "sqlparser/dependency/sqltypes", "encoders using SQLEncodeMap", "-", "no literal encoder consults the escape table any more")
 	}
+}
+
+var r135Confirmed = map[string]string{
+	"*Show.ShowTablesOpt": "the grammar fills ShowTablesOpt only in the SHOW TABLES production, which also sets Type to \"tables\"; every other SHOW form is printed from Type/Scope/OnTable by the second half of the method",
+}
+
+func ruleR135(p *Program, r *Report, a *sqlAST) {
+	inScope := a.reachable(p, schemaStatements)
+	scopeNames := map[string]bool{}
+	for tn := range inScope {
+		scopeNames[tn.Name()] = true
+	}
+	pk := p.Pkg("sqlparser")
+	if pk == nil {
+		r.Anchor("R13.5", "sqlparser")
+		return
+	}
+	n := 0
+	for _, f := range pk.Syntax {
+		for _, d := range f.Decls {
+			fd, ok := d.(*ast.FuncDecl)
+			if !ok || fd.Recv == nil || fd.Name.Name != "Format" || fd.Body == nil {
+				continue
+			}
+			recv := recvIdent(fd, pk.TypesInfo)
+			if recv == nil {
+				continue
+			}
+			fieldOf := func(e ast.Expr) string {
+				se, ok := e.(*ast.SelectorExpr)
+				if !ok {
+					return ""
+				}
+				id, ok := se.X.(*ast.Ident)
+				if !ok || pk.TypesInfo.Uses[id] != recv {
+					return ""
+				}
+				if _, isF := pk.TypesInfo.Uses[se.Sel].(*types.Var); !isF {
+					return ""
+				}
+				return se.Sel.Name
+			}
+			// presence test of a field: F != nil, len(F) > 0 / != 0
+			presence := func(e ast.Expr) string {
+				be, ok := e.(*ast.BinaryExpr)
+				if !ok {
+					return ""
+				}
+				if be.Op == token.NEQ {
+					if isNilIdent(pk.TypesInfo, be.Y) {
+						return fieldOf(be.X)
+					}
+					if isNilIdent(pk.TypesInfo, be.X) {
+						return fieldOf(be.Y)
+					}
+				}
+				if ce, ok := be.X.(*ast.CallExpr); ok && (be.Op == token.GTR || be.Op == token.NEQ) {
+					if id, ok := ce.Fun.(*ast.Ident); ok && id.Name == "len" && len(ce.Args) == 1 {
+						return fieldOf(ce.Args[0])
+					}
+				}
+				return ""
+			}
+			typeName := types.ExprString(fd.Recv.List[0].Type)
+			if !scopeNames[strings.TrimPrefix(typeName, "*")] {
+				continue // not part of a data statement (DDL / SHOW / ...): same scope as R13.1
+			}
+			ast.Inspect(fd.Body, func(nd ast.Node) bool {
+				is, ok := nd.(*ast.IfStmt)
+				if !ok {
+					return true
+				}
+				// collect conjuncts
+				var conj []ast.Expr
+				var split func(e ast.Expr)
+				split = func(e ast.Expr) {
+					if be, ok := e.(*ast.BinaryExpr); ok && be.Op == token.LAND {
+						split(be.X)
+						split(be.Y)
+						return
+					}
+					if pe, ok := e.(*ast.ParenExpr); ok {
+						split(pe.X)
+						return
+					}
+					conj = append(conj, e)
+				}
+				split(is.Cond)
+				for _, c := range conj {
+					f := presence(c)
+					if f == "" {
+						continue
+					}
+					// does the body print that field?
+					prints := false
+					ast.Inspect(is.Body, func(m ast.Node) bool {
+						if e, ok := m.(ast.Expr); ok && fieldOf(e) == f {
+							prints = true
+						}
+						return true
+					})
+					if !prints {
+						continue
+					}
+					n++
+					// conjuncts that are presence tests of other printed fields are fine (both parts of "(%v,%v)")
+					others := 0
+					for _, c2 := range conj {
+						if c2 == c {
+							continue
+						}
+						if presence(c2) == "" {
+							others++
+						}
+					}
+					if why, okC := r135Confirmed[typeName+"."+f]; okC && others > 0 {
+						r.Confirmed("R13.5", typeName+".Format", "presence of "+f+" alone decides whether it is printed", p.Pos(is.Pos()), why)
+						continue
+					}
+					r.Check(others == 0, "R13.5", typeName+".Format", "presence of "+f+" alone decides whether it is printed", p.Pos(is.Pos()), "if node."+f+" != nil { print }", "the clause "+f+" is printed only when a second condition holds as well: a statement that carries it can be re-serialised without it and still parse - as a different statement")
+				}
+				return true
+			})
+		}
+	}
+	if n < 20 {
+		r.Bad("R13.5", "sqlparser", "optional clauses", "-", "fewer guarded optional clauses found in Format methods than confirmed by reading")
+	}
+}
+
+func init() {
+	mut("C13", "ESCAPE printed only for some operators", "sqlparser/ast_methods.go", "	if node.Escape != nil {\n		buf.Myprintf(\" escape %v\", node.Escape)", "	if node.Escape != nil && node.Operator != ILikeStr {\n		buf.Myprintf(\" escape %v\", node.Escape)", "R13.5", "Escape")
 }
